@@ -5,6 +5,8 @@ import random
 from . import c13
 from . import num
 from . import statsrun
+from fractions import Fraction
+
 from .common import *
 
 
@@ -89,6 +91,46 @@ def main(tier, seed, replay=None):
             cases.append(statsrun.gen_stats_case(rng, M, P, M + P + dof, scalar=sc, weights=["none", "pos"][k % 2], noise=0.1,
                                                  quant=(8 if k % 3 else None), probs=PROBS + BAD))
     results, idx, hist, nerr = c13.run_stats_values(run, "C14", cases, binp, (20, 29, 30, 31), "confidence band")
+    # many degrees of freedom (the quantile must still be Student's t with exactly N-M-P degrees of freedom): band relation only
+    big = []
+    for j, N in enumerate([1005, 1203, 2500] if tier == "quick" else [1003, 1005, 1100, 1203, 1500, 2500, 4000]):
+        big.append(statsrun.gen_stats_case(rng, 2, 1, N, scalar=("f32" if j % 3 == 2 else "f64"), weights=["none", "pos"][j % 2], noise=0.1,
+                                           probs=PROBS))
+    for i, c in enumerate(big):
+        c["id"] = 5000 + i
+    bres = run_harness(binp, "scenario", big, os.path.join(COQ, "run", "C14"), timeout_ms=60000, tag="big")
+    bterms, bidx = [], []
+    for c, r in zip(big, bres):
+        if r.get("panic") is not None or r.get("timeout") or r["head"].get("build") != "ok" or not r["steps"][1]["v"]["ok"]:
+            run.violation("fit with statistics on a large well-determined problem failed / panicked", {"case": c, "result": r})
+            continue
+        st = r["steps"][1]["v"]["stats"]
+        m = c["meta"]
+        dof = m["N"] - m["M"] - m["P"]
+        if st["dof"] != dof:
+            run.violation("degrees of freedom %d are not N - M - P = %d" % (st["dof"], dof), {"case": c})
+            continue
+        cu2, floor2, _ = num.params_for(c["scalar"])
+        for b, pr in zip(st["bands"], PROBS):
+            pr_eff = unhx(hx(pr, c["scalar"]))
+            tt = t_ppf((pr_eff + 1) / 2, dof)
+            if abs(b["t"] - tt) > 1e-4 * max(1.0, abs(tt)):
+                run.violation("quantile mismatch for p=%r, dof=%d: %r vs %r" % (pr, dof, b["t"], tt), {"case": c}, no_failing_input=True)
+            # the independent quantile (accurate to ~1e-10) decides: the band must be t * sigma with THIS t up to the accuracy of the
+            # library's own quantile routine (1e-5 relative)
+            rad = [unhx(h) for h in b["radius"]]
+            us = [unhx(h) for h in st["usigma"]]
+            worst = max(abs(a - tt * u) / max(tt * u, 1e-300) for a, u in zip(rad, us))
+            if worst > 5e-5:
+                run.violation("band radius is not t((1+p)/2; N-M-P) * sigma_i at %d degrees of freedom (p=%r, relative deviation %.3g)"
+                              % (dof, pr, worst), {"case": c, "p": pr, "t_student": tt, "dof": dof})
+                break
+            bterms.append("num_band %s %s %s %s %s %s" % (cu2, floor2, num.cnatm(m["N"]), num.qfr(Fraction(b["t"])), num.vec(st["usigma"]), num.vec(b["radius"])))
+            bidx.append((c, pr))
+    bcodes = coq_eval("C14", num.HEADER, bterms, per_file_timeout=2400)
+    for (c, pr), code in zip(bidx, bcodes):
+        if code != 0:
+            run.violation("band radius is not t * sigma_i (many degrees of freedom, p=%r, code %d)" % (pr, code), {"case": c})
     ndof = {}
     for c, r in idx:
         st = r["steps"][1]["v"]["stats"]
@@ -120,12 +162,12 @@ def main(tier, seed, replay=None):
             prev = rad
     run.coverage.update({
         "evaluations": len(cases) * (len(PROBS) + len(BAD)), "distinct_nontrivial": len(idx) * len(PROBS),
-        "rule": "degrees of freedom 1..8 (N = M+P+dof) over several model shapes, weighted and unweighted, f32/f64; probabilities "
+        "rule": "degrees of freedom 1..8 (N = M+P+dof) and 1000..4000 (band relation and quantile only) over several model shapes, weighted and unweighted, f32/f64; probabilities "
                 "%s must be accepted, %s must be rejected by the documented panic; for each accepted p: radius_i = t * sigma_i (exact "
                 "arithmetic, Model/Numeric.check_stats code 30) with t the Student-t quantile at (1+p)/2 and N-M-P degrees of freedom "
                 "(cross-checked against an independent incomplete-beta evaluation), sigma_i^2 = j_i^T Cov j_i with the unweighted j_i "
                 "(code 29), finite, non-negative, one entry per sample, non-decreasing in p" % (PROBS, BAD),
-        "dof_histogram": {str(k): v for k, v in sorted(ndof.items())}, "value_code_histogram": {str(k): v for k, v in hist.items()},
+        "large_dof_band_checks": len(bterms), "dof_histogram": {str(k): v for k, v in sorted(ndof.items())}, "value_code_histogram": {str(k): v for k, v in hist.items()},
         "fits_that_returned_err": nerr})
     run.samples = [{"meta": c["meta"], "scalar": c["scalar"]} for c, r in idx[:3]]
     run.assumptions = ["distrs::StudentsT::ppf is the Student-t quantile (checked here to 1e-4 relative: the crate's quantile is itself an approximation)", "C14_mono needs monotonicity of the quantile in q"]
